@@ -1,13 +1,201 @@
-"""replaylib.py -- native replay of verifier counterexamples against the real code (see replay/)."""
-import json, os, sys
+"""replaylib.py -- native replay of verifier counterexamples against the real code.
+
+try_native(payload, work): builds replay/replay.c against the sources under test (vlib.REPO) with ASan/UBSan,
+translates the counterexample of the failed unit into concrete arguments of one replay sub-command and runs
+it.  -> {"reproduced": bool, "command": [...], "output": str, "detail": str}
+"""
+import glob
+import json
+import os
+import re
+import shutil
+import subprocess
+import sys
+
+VERIF = os.path.dirname(os.path.abspath(__file__))
+sys.path.insert(0, os.path.join(VERIF, "tools"))
+import vlib  # noqa: E402
+
+
+def build(work):
+    d = os.path.join(work, "replay_src")
+    exe = os.path.join(d, "replay")
+    if os.path.exists(exe):
+        return exe, ""
+    os.makedirs(d, exist_ok=True)
+    for sub in ("src", "include"):
+        if not os.path.exists(os.path.join(d, sub)):
+            shutil.copytree(os.path.join(vlib.REPO, sub), os.path.join(d, sub))
+    cmd = ["gcc", "-g", "-O1", "-w", "-fsanitize=address,undefined", "-fno-sanitize-recover=undefined", "-DPOLYSEED_STATIC",
+           "-I" + os.path.join(d, "include"), "-I" + d, "-I" + VERIF, os.path.join(VERIF, "replay", "replay.c")] + \
+          sorted(glob.glob(os.path.join(d, "src", "lang_*.c"))) + ["-o", exe]
+    p = subprocess.run(cmd, capture_output=True, text=True, timeout=600)
+    if p.returncode != 0:
+        return None, p.stderr[-800:]
+    return exe, ""
+
+
+def _int(v, default=0):
+    if v is None:
+        return default
+    if isinstance(v, (int,)):
+        return v
+    s = str(v).strip()
+    s = re.sub(r"[uUlL]+$", "", s)
+    s = re.sub(r"^\(.*?\)", "", s).strip()
+    try:
+        return int(s, 0)
+    except Exception:
+        mo = re.search(r"-?\d+", s)
+        return int(mo.group(0)) if mo else default
+
+
+class Cex:
+    def __init__(self, inputs):
+        self.last = inputs.get("last", inputs) if isinstance(inputs, dict) else {}
+        self.first = inputs.get("first", {}) if isinstance(inputs, dict) else {}
+
+    def scalar(self, name, default=0):
+        for k in (name, name + "!0@1"):
+            if k in self.last:
+                return _int(self.last[k], default)
+        return default
+
+    def obj_of(self, param):
+        """name of the object the pointer parameter points to (dynamic_object$N), if any"""
+        v = self.last.get(param)
+        if v is None:
+            return None
+        mo = re.search(r"(dynamic_object(\$\d+)?)", str(v))
+        return mo.group(1) if mo else None
+
+    def array(self, base, n, first=True, default=0):
+        src = self.first if first else self.last
+        out = []
+        for i in range(n):
+            v = None
+            for key in ("%s[%dl]" % (base, i), "%s[%d]" % (base, i)):
+                if key in src:
+                    v = src[key]
+                    break
+            out.append(_int(v, default) & 0xFFFFFFFFFFFFFFFF)
+        return out
+
+    def field(self, base, f, first=True, default=0):
+        src = self.first if first else self.last
+        return _int(src.get("%s.%s" % (base, f)), default)
+
+    def seed_hex(self, obj, first=True):
+        b = self.field(obj, "birthday", first) & 0xFFFFFFFF
+        f = self.field(obj, "features", first) & 0xFFFFFFFF
+        sec = self.array(obj + ".secret", 32, first)
+        ck = self.field(obj, "checksum", first) & 0xFFFFFFFFFFFFFFFF
+        raw = b.to_bytes(4, "little") + f.to_bytes(4, "little") + bytes(x & 0xFF for x in sec) + ck.to_bytes(8, "little")
+        return raw.hex()
+
+
+def command_for(payload):
+    """-> list of replay arguments, or None if this unit has no native replayer"""
+    unit = payload.get("unit", "").split("@")[0]
+    cx = Cex(payload.get("counterexample", {}))
+    if unit == "U.gf.mul2":
+        return ["mul2", str(cx.scalar("x"))]
+    if unit in ("U.gf.eval", "U.gf.check", "U.gf.encode"):
+        obj = cx.obj_of("poly") or cx.obj_of("message")
+        if not obj:
+            return None
+        co = cx.array(obj + ".coeff", 16)
+        return [{"U.gf.eval": "eval", "U.gf.check": "check", "U.gf.encode": "encode_poly"}[unit]] + [str(c & 2047) for c in co]
+    if unit == "U.gf.pack":
+        obj = cx.obj_of("data")
+        return ["pack", cx.seed_hex(obj)] if obj else None
+    if unit == "U.gf.unpack":
+        obj = cx.obj_of("poly")
+        return ["unpack"] + [str(c & 2047) for c in cx.array(obj + ".coeff", 16)] if obj else None
+    if unit in ("U.st.store", "U.api.store"):
+        obj = cx.obj_of("data") or cx.obj_of("seed")
+        return ["store", cx.seed_hex(obj)] if obj else None
+    if unit == "U.st.load":
+        obj = cx.obj_of("storage")
+        return ["data_load", bytes(x & 0xFF for x in cx.array(obj, 32)).hex()] if obj else None
+    if unit == "U.bd.encode":
+        return ["bday", str(cx.scalar("time") & 0xFFFFFFFFFFFFFFFF)]
+    if unit == "U.bd.decode":
+        return ["bday_decode", str(cx.scalar("birthday"))]
+    if unit == "U.ft.enable":
+        return ["enable", str(cx.scalar("reserved_features") & 0xFFFFFFFF), str(cx.scalar("mask") & 0xFFFFFFFF)]
+    if unit == "U.api.keygen":
+        obj = cx.obj_of("seed")
+        return ["keygen", cx.seed_hex(obj), str(cx.scalar("coin") & 2047), str(min(max(cx.scalar("key_size"), 1), 64))] if obj else None
+    if unit == "U.api.create":
+        rnd = bytes(x & 0xFF for x in cx.array("G.rand_bytes", 32, first=False)).hex()
+        t = _int(cx.last.get("G.time_value"), 0) & 0xFFFFFFFFFFFFFFFF
+        af = 1 if str(cx.last.get("G.alloc_failed", "")).upper() in ("TRUE", "1") else 0
+        return ["create", str(cx.scalar("features") & 0xFFFFFFFF), rnd, str(t), str(af), str(cx.scalar("reserved_features") & 0xFFFFFFFF)]
+    if unit == "U.api.load":
+        obj = cx.obj_of("storage")
+        af = 1 if str(cx.last.get("G.alloc_failed", "")).upper() in ("TRUE", "1") else 0
+        return ["load", bytes(x & 0xFF for x in cx.array(obj, 32)).hex(), str(af), str(cx.scalar("reserved_features") & 0xFFFFFFFF)] if obj else None
+    if unit == "U.api.crypt":
+        mask = bytes(x & 0xFF for x in cx.array("G.kdf_out", 32, first=False)).hex()
+        return ["crypt", cx.seed_hex("old", first=False), mask]
+    if unit.startswith("B.cmp."):
+        key = bytes(x & 0xFF for x in cx.array("key", 10, first=False))
+        elm = bytes(x & 0xFF for x in cx.array("elm", 8, first=False))
+        key = key.split(b"\x00")[0]; elm = elm.split(b"\x00")[0]
+        return ["cmp", unit[len("B.cmp."):], key.hex() or "00", elm.hex() or "00"]
+    return None
+
+
+def run_cmd(args, work):
+    exe, err = build(work)
+    if exe is None:
+        return {"reproduced": False, "detail": "replay driver does not build against the sources under test: " + err}
+    env = dict(os.environ, ASAN_OPTIONS="detect_leaks=0:abort_on_error=0", UBSAN_OPTIONS="print_stacktrace=0")
+    try:
+        p = subprocess.run([exe] + args, capture_output=True, text=True, timeout=120, env=env)
+    except subprocess.TimeoutExpired:
+        return {"reproduced": False, "command": args, "detail": "native replay timed out"}
+    out = (p.stdout + p.stderr)[-1500:]
+    if p.returncode == 3:
+        return {"reproduced": False, "command": args, "output": out, "detail": "replay driver rejected the arguments"}
+    rep = p.returncode != 0
+    return {"reproduced": rep, "command": ["replay"] + args, "output": out,
+            "detail": ("the real code fails the same postcondition on the verifier's input (or a sanitizer fired)" if rep
+                       else "the real code satisfies the postcondition on the extracted input: the counterexample could not be confirmed natively")}
+
 
 def try_native(payload, work):
-    """-> dict(reproduced: bool, detail: str) or None when no native replayer exists for this unit"""
-    return {"reproduced": False, "detail": "no native replayer registered for this unit; the counterexample "
-            "values reported by the verifier are in 'counterexample'"}
+    if payload.get("engine"):
+        # closed obligations are evaluated natively on the real code already: the witness IS a failing input
+        nat = {"reproduced": True, "detail": "closed obligation evaluated natively on the real tables/comparers/search; witness in 'description'"}
+        w = payload.get("witness") or {}
+        if payload.get("failed_obligation", "").startswith("T.fits") and "lang_index" in w:
+            r = run_cmd(["encode_worst", str(w["lang_index"]), str(w["word_any"]), str(w["word_even"])], work)
+            nat["asan_replay"] = r
+        return nat
+    try:
+        args = command_for(payload)
+    except Exception as e:
+        return {"reproduced": False, "detail": "counterexample could not be translated: %r" % e}
+    if not args:
+        return {"reproduced": False, "detail": "no native replayer for this unit (lemma, contract-stub harness or ghost-only obligation); "
+                "the verifier's counterexample values are in 'counterexample'"}
+    return run_cmd(args, work)
+
 
 def replay_file(path):
     with open(path) as f:
         p = json.load(f)
-    print(json.dumps({k: p.get(k) for k in ("property", "unit", "failed_obligation", "description", "native_replay")}, indent=1))
-    return 0
+    print("property:", p.get("property"), " failed obligation:", p.get("failed_obligation"))
+    print("description:", p.get("description"))
+    nat = p.get("native_replay") or {}
+    if nat.get("command"):
+        work = os.path.join(VERIF, ".work", "replay.%d" % os.getpid())
+        os.makedirs(work, exist_ok=True)
+        r = run_cmd(nat["command"][1:], work)
+        print(json.dumps(r, indent=1))
+        shutil.rmtree(work, ignore_errors=True)
+        return 1 if r.get("reproduced") else 0
+    print(json.dumps(nat, indent=1))
+    return 1 if nat.get("reproduced") else 0
